@@ -347,4 +347,94 @@ def keyVersionOf (value : Bytes) : Option Int :=
   if getVersion value < 2 then none
   else (decodeFieldsV2 value).map (·.keyVersion)
 
+/-! ### the `str → bytes` step: `escape.utf8` on an arbitrary Python `str`
+
+A Python `str` is a sequence of code points `0 … 0x10FFFF` and may hold *lone surrogates*
+(`0xD800 … 0xDFFF`; e.g. from `surrogateescape` decoding, JSON `"\ud800"`, or a high/low pair kept as two
+code points).  `s.encode("utf-8")` raises `UnicodeEncodeError` on every one of them. -/
+
+def isSurrogate (c : Nat) : Bool := 0xD800 ≤ c && c ≤ 0xDFFF
+
+/-- `escape.utf8(s)` for a `str`: `none` = `UnicodeEncodeError` -/
+def utf8? (s : List Nat) : Option Bytes := if s.any isSurrogate then none else some (utf8 s)
+
+/-- what a caller may hand over as the signed value: `bytes`, or a `str` (code points) -/
+inductive PyVal where
+  | bytes (b : Bytes)
+  | str (s : List Nat)
+  deriving Repr, DecidableEq
+
+/-- Python truthiness: `not value` -/
+def PyVal.isEmpty : PyVal → Bool
+  | .bytes b => b.isEmpty
+  | .str s => s.isEmpty
+
+/-- `escape.utf8(value)`: bytes pass through, a `str` is encoded; `none` = `UnicodeEncodeError` -/
+def PyVal.encode? : PyVal → Option Bytes
+  | .bytes b => some b
+  | .str s => utf8? s
+
+/-- `create_signed_value` as called with an arbitrary `str` name: the name is encoded inside
+`_create_signature_v1` (after the `assert` on the secret) resp. `format_field(name)` (before the dictionary
+checks); a name that cannot be encoded makes the call raise `UnicodeEncodeError`. -/
+def createIn (H1 H2 : Mac) (secret : Secret) (name : List Nat) (value : Bytes) (version : Nat) (now : Nat)
+    (keyVersion : Option Nat) : CreateOut :=
+  match utf8? name with
+  | some _ => create H1 H2 secret name value version now keyVersion
+  | none =>
+    if version = 1 then
+      match secret with
+      | .dict _ => .raised "AssertionError"
+      | .single _ => .raised "UnicodeEncodeError"
+    else if version = 2 then .raised "UnicodeEncodeError"
+    else .raised "ValueError"
+
+/-- the whole of `decode_signed_value(secret, name, value, max_age_days, clock, min_version)` as the caller sees
+it, *including* `utf8(value)` / `utf8(name)`: a value or a name that has no UTF-8 form is answered with `None`
+(the `except UnicodeEncodeError` of the fixed code; before the fix this was an uncaught exception). -/
+def decodeIn (H1 H2 : Mac) (secret : Secret) (name : List Nat) (value : PyVal) (maxAge now : Int)
+    (minVersion : Nat) : Out :=
+  if minVersion > 2 then .uncaught "ValueError"
+  else if value.isEmpty then .none
+  else
+    match value.encode?, utf8? name with
+    | some v, some _ => decode H1 H2 secret name v maxAge now minVersion
+    | _, _ => .none
+
+/-- the same function as it was BEFORE the fix (kept only to state what the defect was):
+`utf8(value)` ran unguarded first; `utf8(name)` ran unguarded inside `_create_signature_v1` (three `|`-parts)
+resp. after a matching v2 signature. -/
+def decodeInUnfixed (H1 H2 : Mac) (secret : Secret) (name : List Nat) (value : PyVal) (maxAge now : Int)
+    (minVersion : Nat) : Out :=
+  if minVersion > 2 then .uncaught "ValueError"
+  else if value.isEmpty then .none
+  else
+    match value.encode? with
+    | none => .uncaught "UnicodeEncodeError"
+    | some v =>
+      match utf8? name with
+      | some _ => decode H1 H2 secret name v maxAge now minVersion
+      | none =>
+        let version := getVersion v
+        if version < minVersion then .none
+        else if version = 1 then
+          match secret with
+          | .dict _ => .none
+          | .single _ => if (splitOn1 cPipe v).length = 3 then .uncaught "UnicodeEncodeError" else .none
+        else if version = 2 then
+          match decodeFieldsV2 v with
+          | none => .none
+          | some f =>
+            match effectiveKey secret f.keyVersion with
+            | none => .none
+            | some key =>
+              if f.sig ≠ H2 key (signedPart v f.sig) then .none else .uncaught "UnicodeEncodeError"
+        else .none
+
+/-- `get_signature_key_version(value)` including `utf8(value)` (fixed code: `None` when it cannot be encoded) -/
+def keyVersionIn (value : PyVal) : Option Int :=
+  match value.encode? with
+  | none => none
+  | some v => keyVersionOf v
+
 end TornadoModel.C23
